@@ -4,16 +4,16 @@ set_option maxRecDepth 8192
 namespace Agd.Tie.C10
 open Agd.Gen.C10
 
-/-- Order of the early exits of the handler: spoofed port, device result, access, and only then the ECS error. -/
-def wrap_if_conds_expected : String := "raddr.Port() == 0 | !cont | mw.isBlockedByAccess(ctx, ri, req, raddr) | locErr != nil"
+/-- Order of the early exits of the handler: spoofed port, access, device result, and only then the ECS error. -/
+def wrap_if_conds_expected : String := "raddr.Port() == 0 | mw.isBlockedByAccess(ctx, ri, req, raddr) | !cont | locErr != nil"
 theorem wrap_if_conds_src : wrap_if_conds = wrap_if_conds_expected := by decide
 
-/-- A blocked request returns `nil` before `processLocationErr` (FORMERR) and before `serveWithRatelimiting` (the next stage). -/
-def wrap_returns_expected : String := "nil | err | nil | mw.processLocationErr(ctx, rw, req, locErr) | mw.serveWithRatelimiting(ctx, rw, req, ri, next) | dnsserver.HandlerFunc(f)"
+/-- A blocked request returns `nil` before the device finder's error is returned, before `processLocationErr` (FORMERR) and before `serveWithRatelimiting` (the next stage). -/
+def wrap_returns_expected : String := "nil | nil | err | mw.processLocationErr(ctx, rw, req, locErr) | mw.serveWithRatelimiting(ctx, rw, req, ri, next) | dnsserver.HandlerFunc(f)"
 theorem wrap_returns_src : wrap_returns = wrap_returns_expected := by decide
 
-/-- Source order of the calls: the access check precedes the FORMERR path, `ContextWithRequestInfo` and the next stage. -/
-def wrap_ctx_calls_expected : String := "location,newRequestInfo,handleDeviceResult,isBlockedByAccess,processLocationErr,ContextWithRequestInfo,serveWithRatelimiting"
+/-- Source order of the calls: the access check precedes the handling of the device result, the FORMERR path, `ContextWithRequestInfo` and the next stage. -/
+def wrap_ctx_calls_expected : String := "location,newRequestInfo,isBlockedByAccess,handleDeviceResult,processLocationErr,ContextWithRequestInfo,serveWithRatelimiting"
 theorem wrap_ctx_calls_src : wrap_ctx_calls = wrap_ctx_calls_expected := by decide
 
 /-- Only the unknown-dedicated and error results stop the handler. -/
@@ -107,5 +107,43 @@ theorem norm_query_if_src : norm_query_if = norm_query_if_expected := by decide
 
 def norm_query_returns_expected : String := "host | NormalizeDomain(host)"
 theorem norm_query_returns_src : norm_query_returns = norm_query_returns_expected := by decide
+
+/-- The server answers a handler error with SERVFAIL (`Effect.servfail`): the third `genErrorResponse` of `serveDNSMsgInternal`, under `err != nil` after `handler.ServeDNS`. -/
+def srv_err_if_conds_expected : String := "resp != nil | err != nil | err != nil | isNonCriticalNetError(err) | err != nil"
+theorem srv_err_if_conds_src : srv_err_if_conds = srv_err_if_conds_expected := by decide
+
+def srv_err_resp_expected : String := "req, dns.RcodeServerFailure"
+theorem srv_err_resp_src : srv_err_resp = srv_err_resp_expected := by decide
+
+/-- The access check sees the client's location: it is stored in the request information first … -/
+def wrap_loc_assign_expected : String := "loc, ecs"
+theorem wrap_loc_assign_src : wrap_loc_assign = wrap_loc_assign_expected := by decide
+
+/-- … and it is the GeoIP data of the remote address (not of the ECS subnet) … -/
+def loc_client_expected : String := "mw.locationData(ctx, remoteIP, \"client\")"
+theorem loc_client_src : loc_client = loc_client_expected := by decide
+
+/-- … returned also when the ECS option is malformed. -/
+def loc_returns_expected : String := "loc, nil, fmt.Errorf(\"getting ecs info: %w\", err) | loc, ecs, nil"
+theorem loc_returns_src : loc_returns = loc_returns_expected := by decide
+
+/-- `newRequestInfo` overwrites the pooled structure from the current request (`fillInfo`). -/
+def ri_host_expected : String := "agdnet.NormalizeDomain(q.Name)"
+theorem ri_host_src : ri_host = ri_host_expected := by decide
+
+def ri_qtype_expected : String := "q.Qtype"
+theorem ri_qtype_src : ri_qtype = ri_qtype_expected := by decide
+
+def ri_qclass_expected : String := "q.Qclass"
+theorem ri_qclass_src : ri_qclass = ri_qclass_expected := by decide
+
+def ri_remote_expected : String := "raddr.Addr()"
+theorem ri_remote_src : ri_remote = ri_remote_expected := by decide
+
+def ri_location_reset_expected : String := "nil"
+theorem ri_location_reset_src : ri_location_reset = ri_location_reset_expected := by decide
+
+def ri_ecs_reset_expected : String := "nil"
+theorem ri_ecs_reset_src : ri_ecs_reset = ri_ecs_reset_expected := by decide
 
 end Agd.Tie.C10
